@@ -145,16 +145,24 @@ class C24(Spec):
                    'coloring': rng.random() < 0.85}
             cases.append({'spec': spec, 'cfg': cfg, 'history': [],
                           'kind': 'model-approx_totals' + (':coloring' if cfg['coloring'] else '') + ':indexed-desvar'})
+        # pre-opt / iterated / post-opt split of a driver run, with discrete links on design-variable -> response paths
+        for k in range(40 if tier == 'quick' else 400):
+            cases.append({'spec': sg.gen_ppp_spec(rng), 'cfg': {}, 'kind': 'pre-iter-post:discrete-links'})
         return cases
 
     def search_gen(self, tier, rng):
         return self.gen('quick', rng)
 
     def got_term(self, c):
+        if c['spec'].get('ppp'):
+            deps, seeds = sg.ppp_graph(c['spec'])
+            return '(v_bset (iter_set %s %s))' % (nll(deps), nl(seeds))
         deps, ds, rs = graph(c['spec'])
         return '(VL [run_relevance %s %s %s; VB true])' % (nll(deps), nll(ds), nll(rs))
 
     def want_term(self, c, res):
+        if c['spec'].get('ppp'):
+            return '(v_bset %s)' % bl(res['res'])
         deps, ds, rs = graph(c['spec'])
         D, A = res['res']
         lit = '(VL [VL [%s]; VL [%s]; VB true])' % ('; '.join('(v_bset %s)' % bl(d) for d in D),
@@ -170,13 +178,17 @@ class C24(Spec):
         # components with undeclared (all-zero, sparse) partial blocks make OpenMDAO refine its graph to
         # variable level for that component (_update_dataflow_graph); the node-level model does not represent
         # that: such cases are checked by the on/off oracle only
+        if case['spec'].get('ppp'):
+            return res.get('res', '__none__') != '__none__'
         return res.get('res', '__none__') != '__none__' and not missing_partials(case['spec'])
 
 
 def _after(v, cases, results):
     v.cov['vacuous_nonconverged_runs'] = sum(r.get('vacuous', 0) for r in results)
     v.cov['rejected_identically_on_and_off'] = sorted({r.get('both_raise') for r in results if r.get('both_raise')})
-    v.cov['dag_cases'] = sum(1 for c in cases if not c['spec']['coupled'])
+    v.cov['dag_cases'] = sum(1 for c in cases if not c['spec'].get('coupled'))
+    v.cov['pre_iter_post_cases'] = sum(1 for c in cases if c['spec'].get('ppp'))
+    results = [r for c, r in zip(cases, results) if not c['spec'].get('ppp')]
     v.cov['irrelevant_systems_total'] = sum(
         sum(1 for col in zip(*[[x and y for x, y in zip(d, a)] for d in r['res'][0] for a in r['res'][1]]) if not any(col))
         for r in results if isinstance(r.get('res'), list) and r['res'][0] and r['res'][1])
